@@ -71,9 +71,12 @@ func genFloat(t *rapid.T, label string) float64 {
 
 // genExpr builds a tree of at most depth levels; leafy controls how often recursion stops early.
 func genExpr(t *rapid.T, depth int) stmt.Expr {
-	kind := rapid.IntRange(0, 11).Draw(t, "kind")
-	if depth <= 1 && (kind == 0 || kind == 2 || kind == 3 || kind == 4 || kind == 9 || kind == 11) {
-		kind = rapid.SampledFrom([]int{1, 5, 6, 7, 8, 10}).Draw(t, "leafKind")
+	var kind int
+	if depth <= 1 {
+		kind = rapid.SampledFrom([]int{1, 5, 6, 7, 8, 10, 2}).Draw(t, "leafKind") // a call without parameters is a leaf too
+	} else {
+		// composite kinds twice as often as leaves (rapid's SampledFrom is roughly uniform)
+		kind = rapid.SampledFrom([]int{0, 2, 3, 4, 9, 11, 0, 2, 3, 4, 9, 11, 2, 4, 1, 5, 6, 7, 8, 10}).Draw(t, "kind")
 	}
 	switch kind {
 	case 0:
@@ -82,6 +85,9 @@ func genExpr(t *rapid.T, depth int) stmt.Expr {
 		return &stmt.FieldExpr{Name: genString(t, "name")}
 	case 2:
 		n := rapid.SampledFrom([]int{0, 1, 1, 1, 2, 3}).Draw(t, "nParams")
+		if depth <= 1 {
+			n = 0
+		}
 		c := &stmt.CallExpr{FuncType: rapid.SampledFrom(allFuncTypes).Draw(t, "funcType")}
 		switch {
 		case n > 0:
